@@ -12,7 +12,7 @@ use crate::spec::Item;
 pub static DEF: PropDef = PropDef {
     id: "C12",
     level: "fault_enumeration",
-    rule: "each case: one valid document (real writer or hostile reference encoder; known, unknown and mixed sizes; ids and size fields of 1-8 bytes) and EVERY cut position 0..=len (for documents up to 400 bytes; 64 random cuts plus all header-internal cuts of 40 random elements for larger ones) x capacity {16, 64, default} x read schedule {whole, 1 byte, random} x poison pattern (one random combination per cut). Expected behaviour is computed arithmetically from the layout of the whole document, not by parsing the prefix: items = all elements whose header (masters) or whole extent (other elements) lies inside the prefix, with Ends of masters that close inside the prefix; then, if the cut is on a tag boundary, the Ends of all open masters innermost first and None; otherwise UnexpectedEOF with tag_start = offset of the incomplete tag, tag_id present iff the id bytes are complete (and equal), tag_size present iff the header is complete (and equal), partial_data = exactly the available payload bytes (None or empty when none), and never a CorruptedFileData error. distinct = (cut class: boundary / inside id / inside size / inside payload) x (element kind, id length, size length) x capacity; non-trivial = not a boundary cut, or a boundary cut with >= 2 masters open.",
+    rule: "each case: one valid document (real writer or hostile reference encoder; known, unknown and mixed sizes; ids and size fields of 1-8 bytes) and EVERY cut position 0..=len (for documents up to 400 bytes; 64 random cuts plus all header-internal cuts of 40 random elements for larger ones) x capacity {default, 0, 1, 15, 16, 17, 64} x read schedule {whole, 1 byte, random} x poison pattern (one random combination per cut). Expected behaviour is computed arithmetically from the layout of the whole document, not by parsing the prefix: items = all elements whose header (masters) or whole extent (other elements) lies inside the prefix, with Ends of masters that close inside the prefix; then, if the cut is on a tag boundary, the Ends of all open masters innermost first and None; otherwise UnexpectedEOF with tag_start = offset of the incomplete tag, tag_id present iff the id bytes are complete (and equal), tag_size present iff the header is complete (and equal), partial_data = exactly the available payload bytes (None or empty when none), and never a CorruptedFileData error. distinct = (cut class: boundary / inside id / inside size / inside payload) x (element kind, id length, size length) x capacity; non-trivial = not a boundary cut, or a boundary cut with >= 2 masters open.",
     assumptions: &["layout (refcodec::layout_guided / enc_tree) of the valid document is correct", "a cut after a complete header of an empty element (size 0) counts as a boundary: the element is complete", "for unknown-size masters the implicit close is only known when the following element's header is complete; a cut inside the header of an element that would close unknown-size masters expects the EOF error without those Ends (the Ends of still-open masters are not emitted after an error)"],
     cases_quick: 30_000,
     cases_thorough: 400_000,
@@ -116,7 +116,7 @@ fn run(c: &mut Case) {
     };
     for cut in cuts {
         let (exp_items, opt_ends, exp_end, class, info) = expected(&inp, cut);
-        let cap = *c.rng.pick(&[None, Some(16usize), Some(64)]);
+        let cap = *c.rng.pick(&[None, None, Some(16usize), Some(64), Some(0), Some(1), Some(15), Some(17)]);
         let cfg = RCfg { allow: 0, buffered: vec![], capacity: cap, max_size: MaxSz::Default, eof_end: true };
         let mut src = ScriptedRead::new(inp.bytes[..cut].to_vec()).with_poison(*c.rng.pick(&POISONS));
         let scale = 1 + cut / 300;
